@@ -36,9 +36,24 @@ def cstr(s):
 class Sandbox:
     """redirects the data home, replaces urlretrieve / _sha256 / sleep inside traffic_weaver.datasets._base"""
 
-    def __init__(self, use_env=True):
+    @staticmethod
+    def other_filesystem():
+        """a writable directory on another file system than the system temp directory (None if there is none)"""
+        try:
+            dev = os.stat(tempfile.gettempdir()).st_dev
+        except OSError:
+            return None
+        for cand in ("/dev/shm", "/run/shm", os.path.join(VERIF, "_build")):
+            try:
+                if os.path.isdir(cand) and os.access(cand, os.W_OK) and os.stat(cand).st_dev != dev:
+                    return cand
+            except OSError:
+                pass
+        return None
+
+    def __init__(self, use_env=True, base=None):
         os.makedirs(os.path.join(VERIF, "_build"), exist_ok=True)
-        self.root = tempfile.mkdtemp(prefix="datahome.", dir=os.path.join(VERIF, "_build"))
+        self.root = tempfile.mkdtemp(prefix="datahome.", dir=base or os.path.join(VERIF, "_build"))
         self.use_env = use_env
         self.downloads = []
         self.current = None
@@ -123,6 +138,12 @@ Definition rejected_obs (ds : string) (e : exn) : bool := match resolve ds with 
                     # for the documented spelling: the same name asked again with the other value of the unpack flag (the
                     # second answer comes from what the first request left behind)
                     cases.append({"name": spelling, "doc": name, "family": fam, "unpack": unpack, "env": True, "again": spelling == name})
+        # the data home on another file system than the system temp directory (a data disk, a RAM disk): the cache is still written
+        # and used
+        if Sandbox.other_filesystem():
+            remote_docs = [(f_, n_) for f_, n_ in doc_names() if f_ != "sandvine"]
+            for fam, name in remote_docs[::11]:
+                cases.append({"name": name, "doc": name, "family": fam, "unpack": False, "env": True, "again": True, "other_fs": True})
         # data home resolution without the environment variable, and unknown names
         docs = doc_names()
         for fam, name in docs[::9]:
@@ -135,7 +156,7 @@ Definition rejected_obs (ds : string) (e : exn) : bool := match resolve ds with 
         from traffic_weaver.datasets import load_dataset
         with warnings.catch_warnings():
             warnings.simplefilter("ignore")
-            with Sandbox(use_env=c["env"]) as sb:
+            with Sandbox(use_env=c["env"], base=(Sandbox.other_filesystem() if c.get("other_fs") else None)) as sb:
                 try:
                     r = load_dataset(c["name"], unpack_dataset_columns=c["unpack"])
                     if c["unpack"]:
